@@ -2,72 +2,31 @@ package main
 
 import (
 	"bytes"
-	"crypto"
-	"encoding/binary"
+	"crypto/x509/pkix"
 	"fmt"
-	"io"
-	"time"
+	"math/big"
+	"strings"
 
 	"github.com/foxboron/go-uefi/authenticode"
 	"verif/gen/pegen"
 	"verif/keys"
-	"verif/ref/refpe"
 )
 
-type sparse struct {
-	hdr  []byte
-	size int64
-}
-
-func (s *sparse) ReadAt(p []byte, off int64) (int, error) {
-	if off >= s.size {
-		return 0, io.EOF
-	}
-	n := len(p)
-	if int64(n) > s.size-off {
-		n = int(s.size - off)
-	}
-	for i := 0; i < n; i++ {
-		p[i] = 0
-	}
-	if off < int64(len(s.hdr)) {
-		copy(p[:n], s.hdr[off:])
-	}
-	if n < len(p) {
-		return n, io.EOF
-	}
-	return n, nil
-}
-
 func main() {
-	small := pegen.Build(pegen.Layout{PE32Plus: true, Lfanew: 0x40, Secs: []pegen.Sec{{RawSize: 8}}})
-	im, _ := refpe.Parse(small)
-	h := im.Sections[0].HeaderOff
-	big := uint32(1<<31 + 16)
-	hdr := append([]byte{}, small[:im.SizeOfHeaders]...)
-	binary.LittleEndian.PutUint32(hdr[h+8:], big)
-	binary.LittleEndian.PutUint32(hdr[h+16:], big)
-	s := &sparse{hdr, int64(im.SizeOfHeaders) + int64(big) + 3}
-	t0 := time.Now()
-	p, err := authenticode.Parse(s)
-	fmt.Println("parse", err, time.Since(t0))
-	if err != nil {
-		return
+	base := pegen.Build(pegen.Layout{PE32Plus: true, Lfanew: 0x40, Secs: []pegen.Sec{{RawSize: 8}, {RawSize: 13}}})
+	seen := map[int]bool{}
+	for l := 1; l <= 200; l++ {
+		ct := keys.Cert(pkix.Name{CommonName: strings.Repeat("y", 1+l/6), Organization: []string{strings.Repeat("o", 1+l%6)}}, big.NewInt(int64(0xB000+l)), &keys.K(1).PublicKey, keys.K(1))
+		p, _ := authenticode.Parse(bytes.NewReader(base))
+		sig, err := p.Sign(keys.K(1), ct)
+		if err != nil {
+			fmt.Println(err)
+			return
+		}
+		seen[(8+len(sig))%256] = true
+		if l < 12 {
+			fmt.Print(8+len(sig), " ")
+		}
 	}
-	d := p.Hash(crypto.SHA256)
-	fmt.Printf("hash %x %v\n", d[:4], time.Since(t0))
-	_, err = p.Sign(keys.K(1), keys.C(1))
-	fmt.Println("sign", err, time.Since(t0))
-	ok, err := p.Verify(keys.C(1))
-	fmt.Println("verify", ok, err, time.Since(t0))
-	var tail bytes.Buffer
-	n, _ := io.Copy(io.Discard, io.TeeReader(p.Open(), &lastN{&tail, 4096}))
-	fmt.Println("open bytes", n, time.Since(t0))
+	fmt.Println(len(seen), seen[0])
 }
-
-type lastN struct {
-	b *bytes.Buffer
-	n int
-}
-
-func (l *lastN) Write(p []byte) (int, error) { return len(p), nil }
